@@ -161,8 +161,10 @@ pub fn lookup_scenario(r: &mut Report, seed: u64) {
             let d = x.dht.clone();
             let sl = salt.clone();
             handles.push(std::thread::spawn(move || d.get_mutable_most_recent(&key, sl.as_deref())));
-            // let the call reach the actor
-            w.run_for(MS);
+            // let the call reach the actor (real time; the callers that joined earlier may have returned already)
+            if !super::net::wait_until_call_registered(&w, &x, || handles.iter().filter(|h| !h.is_finished()).count(), || handles.last().map(|h| h.is_finished()).unwrap_or(true)) {
+                r.inconclusive("a helper thread's blocking call did not reach the actor within 20 real seconds");
+            }
         }
         w.run_until(120 * SEC, |_| handles.iter().all(|h| h.is_finished()));
         for h in handles {
@@ -219,6 +221,156 @@ pub fn lookup_scenario(r: &mut Report, seed: u64) {
     }
 }
 
+/// Slow networks: every datagram takes 250..400 ms, so round trips are above the initial 500 ms request
+/// timeout; after warm-up lookups the node's adaptive request timeout (read through the snapshot hook) is
+/// above every round trip. Then a series of get_mutable_most_recent lookups runs against replicas of
+/// one key; in each, one replica (a different one every time) holds a newer seq than all others, and every
+/// answer refers the lookup to one more contact nobody sits at (so requests keep being added while the
+/// first answers are still on their way, and expired ones pile up in the in-flight vector between lookups).
+/// An answer that arrives within the node's own timeout while the lookup runs was delivered: the result
+/// must carry the newest seq.
+pub fn slow_lookup_scenario(r: &mut Report, seed: u64) {
+    use crate::bencode::B;
+    use crate::krpc::*;
+    use crate::simnet::*;
+    use std::cell::RefCell;
+    use std::net::{Ipv4Addr, SocketAddrV4};
+    use std::rc::Rc;
+    r.eval();
+    let mut rng = Rng::new(seed);
+    let (lat_min, lat_max) = (250 * MS, (300 + rng.below(100)) * MS);
+    let w = World::with_cfg(seed, NetCfg { lat_min, lat_max, random_ties: true }, TraceLevel::Off);
+    let signer = SigningKey::from_bytes(&rng.array::<32>());
+    let salt: Option<Vec<u8>> = if rng.bool() { Some(rng.blob(1, 12)) } else { None };
+    let key = signer.verifying_key().to_bytes();
+    let target = crate::sha1::mutable_target(&key, salt.as_deref());
+    let n = *rng.pick(&[2usize, 3, 4, 5, 6, 7, 8, 11, 12, 15, 16]);
+    let case = json!({"class":"slow-lookup","seed":seed.to_string(),"replicas":n,"one_way_latency_ms":[lat_min / MS, lat_max / MS]});
+    let ends: Vec<([u8; 20], SocketAddrV4)> = (0..n).map(|i| (rng.array(), SocketAddrV4::new(Ipv4Addr::new(54, 0, 0, 1 + i as u8), 6881))).collect();
+    let socks: Vec<SockId> = ends.iter().map(|e| w.raw(e.1)).collect();
+    // (round, index of the replica with the newest item); seq = 10 * round (+ 1 for the newest)
+    let round: Rc<RefCell<(i64, usize)>> = Rc::new(RefCell::new((0, 0)));
+    let served: Rc<RefCell<Vec<i64>>> = Rc::new(RefCell::new(vec![]));
+    let dead_per_answer = rng.usize(3);
+    {
+        let (ends2, socks2, round2, served2, signer2, salt2) = (ends.clone(), socks.clone(), round.clone(), served.clone(), signer.clone(), salt.clone());
+        let mut fresh = 0u32;
+        w.set_responder(Some(Box::new(move |w, sock, d| {
+            let Some(i) = socks2.iter().position(|s| *s == sock) else { return false };
+            let Some(q) = Krpc::parse(&d.bytes) else { return true };
+            if q.y != b'q' {
+                return true;
+            }
+            let mut list = ends2.clone();
+            if let Some(t) = q.target() {
+                for _ in 0..dead_per_answer {
+                    fresh += 1;
+                    let mut id = t;
+                    id[16..20].copy_from_slice(&fresh.to_be_bytes());
+                    list.push((id, SocketAddrV4::new(Ipv4Addr::new(55, (fresh >> 16) as u8, (fresh >> 8) as u8, fresh as u8), 6881)));
+                }
+            }
+            let mut rd = vec![("id", B::bytes(&ends2[i].0)), ("nodes", B::Bytes(nodes_bytes(&list)))];
+            if q.is_query("get") && q.target() == Some(target) {
+                let (k, newest) = *round2.borrow();
+                let seq = 10 * k + if i == newest { 1 } else { 0 };
+                let item = MutableItem::new(&signer2, format!("v{seq}").as_bytes(), seq, salt2.as_deref());
+                rd.push(("token", B::bytes(b"tokn")));
+                rd.push(("v", B::bytes(item.value())));
+                rd.push(("k", B::bytes(item.key())));
+                rd.push(("sig", B::bytes(item.signature())));
+                rd.push(("seq", B::Int(seq as i128)));
+                served2.borrow_mut().push(seq);
+            } else if !q.is_query("find_node") && !q.is_query("ping") {
+                rd.push(("token", B::bytes(b"tokn")));
+            }
+            w.raw_send(sock, &response(&q.t, B::dict(rd), Some(&d.from), Some(&VERSION_RS6)).encode(), d.from);
+            true
+        })));
+    }
+    let boots: Vec<SocketAddrV4> = ends.iter().map(|e| e.1).collect();
+    let x_server = rng.bool();
+    let x = match w.spawn(if x_server { NodeSpec::server(Ipv4Addr::new(54, 0, 9, 9), &boots) } else { NodeSpec::client(Ipv4Addr::new(54, 0, 9, 9), &boots) }) {
+        Ok(x) => x,
+        Err(_) => { r.inconclusive("slow lookup scenario: node did not start"); return }
+    };
+    w.block_on(x.adht.bootstrapped(), 120 * SEC);
+    for _ in 0..6 {
+        let a = x.adht.clone();
+        let t = dht::Id::from(rng.array::<20>());
+        w.block_on(async move { drop(a.get_closest_nodes(t).await) }, 120 * SEC);
+        w.run_for(SEC);
+    }
+    let timeout = super::net::snapshot(&w, &x).map(|s| s.request_timeout.as_nanos() as u64).unwrap_or(0);
+    r.count("slow_lookup_scenarios");
+    if timeout <= 2 * lat_max + 20 * MS {
+        r.count("slow_lookup/premise-unmet-timeout-below-round-trip");
+        drop(x);
+        return;
+    }
+    let sync = rng.chance(1, 3);
+    let mut failed: Vec<Value> = vec![];
+    let lookups = 40;
+    let log = super::net::log_exchanges(&w, x.addr);
+    for k in 1..=lookups as i64 {
+        *round.borrow_mut() = (k, rng.usize(n));
+        served.borrow_mut().clear();
+        // (the node's timeout moves with every answer it takes - a run of similar round trips shrinks the deviation
+        // term -, so it is read at every iteration of the node's loop; an answer counts as delivered if, by that
+        // timeline, its request was never older than the timeout in force until the answer was received)
+        let mark = log.lock().unwrap_or_else(|e| e.into_inner()).len();
+        let (res, line): (Option<Option<MutableItem>>, Vec<(u64, u64)>) = if sync {
+            let d = x.dht.clone();
+            let sl = salt.clone();
+            let h = std::thread::spawn(move || d.get_mutable_most_recent(&key, sl.as_deref()));
+            if !super::net::wait_until_call_registered(&w, &x, || 1, || h.is_finished()) {
+                r.inconclusive("a helper thread's blocking call did not reach the actor within 20 real seconds");
+            }
+            let (_, line) = super::net::run_until_sampling_timeout(&w, &x, 300 * SEC, |_| h.is_finished());
+            (if h.is_finished() { h.join().ok() } else { None }, line)
+        } else {
+            let a = x.adht.clone();
+            let sl = salt.clone();
+            let mut task = Task::new(w.now(), async move { a.get_mutable_most_recent(&key, sl.as_deref()).await });
+            let (_, line) = super::net::run_until_sampling_timeout(&w, &x, 300 * SEC, |w| task.poll(w.now()));
+            (task.result.take(), line)
+        };
+        r.count("slow_lookup/lookups");
+        let newest_addr = ends[round.borrow().1].1;
+        let newest_exchange = log.lock().unwrap_or_else(|e| e.into_inner())[mark..].iter().rev().find(|e| e.to == newest_addr && e.name == "get" && e.target == Some(target)).cloned();
+        let delivered = match &newest_exchange {
+            Some(super::net::Exchange { sent, answered: Some(t_a), .. }) => super::net::alive_until_answered(&line, *sent, *t_a),
+            _ => false,
+        };
+        if delivered {
+            r.count("slow_lookup/lookups_with_the_newest_item_delivered_by_the_nodes_own_clock");
+            let got = res.as_ref().and_then(|o| o.as_ref().map(|i| i.seq()));
+            if res.is_none() || got != Some(10 * k + 1) {
+                let e = newest_exchange.expect("exchange");
+                failed.push(json!({"lookup": k, "returned_seq": got.map(|s| s.to_string()), "newest_seq": (10 * k + 1).to_string(), "completed": res.is_some(), "round_trip_of_the_newest_item_ms": (e.answered.unwrap_or(0) - e.sent) / MS, "smallest_request_timeout_meanwhile_ms": line.iter().filter(|(t, _)| *t >= e.sent && *t <= e.answered.unwrap_or(0)).map(|(_, to)| to / MS).min()}));
+            }
+        }
+        w.run_for(rng.below(1500) * MS);
+    }
+    r.nontrivial(mix(seed, n as u64));
+    if !failed.is_empty() {
+        r.violation(
+            &format!("lookup/{}/slow-network/not-max-seq", if sync { "sync" } else { "async" }),
+            "the replica holding the newest item answered within the node's own (adapted) request timeout - read at every iteration of the node's loop - while the lookup ran, yet get_mutable_most_recent did not return that item's seq",
+            case.clone(),
+            json!({"failed": failed, "request_timeout_after_warm_up_ms": timeout / MS, "server_mode": x_server, "dead_referrals_per_answer": dead_per_answer}),
+        );
+    }
+    if w.stuck() {
+        r.inconclusive("scheduler watchdog fired");
+    }
+    drop(x);
+    w.shutdown();
+    for (thread, loc, msg) in crate::take_panics() {
+        r.violation(&format!("panic/{loc}"), &format!("thread {thread} panicked: {msg}"), case.clone(), json!({}));
+    }
+}
+
 pub fn run(a: &Args) -> Report {
     let mut r = Report::new("C16");
     if let Some(path) = &a.replay {
@@ -226,6 +378,11 @@ pub fn run(a: &Args) -> Report {
         if v["case"]["class"] == "lookup" {
             let seed = v["case"]["seed"].as_str().and_then(|s| s.parse().ok()).unwrap_or(1);
             super::guarded(&mut r, v["case"].clone(), |r| lookup_scenario(r, seed));
+            return r;
+        }
+        if v["case"]["class"] == "slow-lookup" {
+            let seed = v["case"]["seed"].as_str().and_then(|s| s.parse().ok()).unwrap_or(1);
+            super::guarded(&mut r, v["case"].clone(), |r| slow_lookup_scenario(r, seed));
             return r;
         }
     }
@@ -357,6 +514,10 @@ pub fn run(a: &Args) -> Report {
         let seed = rng.u64();
         super::guarded(&mut r, json!({"class":"lookup","seed":seed.to_string()}), |r| lookup_scenario(r, seed));
         r.count("lookup_worlds");
+    }
+    for _ in 0..(if a.quick() { 160 } else { 3_200 }) / a.nshards.max(1) {
+        let seed = rng.u64();
+        super::guarded(&mut r, json!({"class":"slow-lookup","seed":seed.to_string()}), |r| slow_lookup_scenario(r, seed));
     }
     r.notes.insert("exhaustive_bound".into(), json!(format!("all sequences of length 0..={max_len} over each 6-item alphabet (= every permutation of every multiset of up to {max_len} items)")));
     r
